@@ -1080,9 +1080,23 @@ impl<'a> Sim<'a> {
         if self.atts[att].adm != Adm::No {
             // duplicate of an admitted SYN: it creates a fresh child only if the first one is gone
             if self.atts[att].server_ended || self.atts[att].client_ended {
-                if self.matching_listener(dst_host, dst).is_some() {
+                if let Some(li) = self.matching_listener(dst_host, dst) {
                     self.atts[att].leak_allow += 1;
                     self.out.label("syn:duplicate-after-connection-ended");
+                    // Unless the server still holds the accepted stream (then the 4-tuple entry is
+                    // certainly there and takes the segment), the fresh half-open child is charged
+                    // to the backlog of the listener that is there *now* — possibly a successor of
+                    // the one that admitted the attempt.  How long it keeps the slot is not
+                    // modelled: a connector that is gone answers its SYN-ACK with a RST, one whose
+                    // reset stream is still held (TCB Closed, kept until the handle is dropped)
+                    // ignores it, and the child then stays for its whole SYN-ACK retransmit budget.
+                    // From here on that listener's occupancy is only bounded.
+                    let a = &self.atts[att];
+                    if a.server_ended || !a.accepted {
+                        self.lsts[li].occ_hi += 1;
+                        self.lsts[li].tainted = true;
+                        self.out.label("syn:duplicate-after-connection-ended:takes-backlog-slot");
+                    }
                 }
             }
             return;
